@@ -104,12 +104,12 @@ def make_replay(pid, ob, root, repo, tier):
         script = 'native/falsify2.py'
         key = ('f2', pid)
         if key not in _FALSIFY_CACHE:
-            _FALSIFY_CACHE[key] = native(script, [pid, '400'], root, 1500)
+            _FALSIFY_CACHE[key] = native(script, [pid, '300'], root, 1500)
         code, out, err = _FALSIFY_CACHE[key]
         rep['falsification_search_2'] = {'exit': code, 'output': out[-3000:], 'stderr': err[-300:]}
         if code == 1:
             rep['native'] = dict(rep['native'], reproduced=True, how='bounded native falsification search (random scenarios) found a concrete failing input',
-                                 replay_cmd='PYTHONPATH=%s:%s /venv/bin/python %s %s 400' % (root, os.path.join(VERIF, 'native'), os.path.join(VERIF, script), pid),
+                                 replay_cmd='PYTHONPATH=%s:%s /venv/bin/python %s %s 300' % (root, os.path.join(VERIF, 'native'), os.path.join(VERIF, script), pid),
                                  failing_input=out.strip().split('\n')[-1][:3000])
     return rep
 
